@@ -18,6 +18,13 @@ What is proved here (over ℝ, for all inputs):
                                   potential coded in `mj_energyPos` (`mju_polyPotential(k, poly, x)`), both
                                   kernels translated from the source on every run; `spring_potential_at_ref`:
                                   potential and force vanish at the reference;
+  * `joint_loop_force_is_neg_grad`  the same for the whole joint loops INCLUDING their skip test
+                                  (`stiffness == 0 && mju_isZero(poly, mjNPOLY)`): for any number of slide/hinge
+                                  joints, `qfrc_spring[j]` of the model of `mj_springdamper` is minus the partial derivative
+                                  of `energy[0]` of the model of `mj_energyPos` (Model/Energy.lean, tied bitwise to the
+                                  engine on every run) with respect to `q j`;
+                                  `skip_test_iff_no_potential`: the skip test holds exactly for the springs whose
+                                  potential is identically zero (so a joint with a purely polynomial spring is not skipped);
   * `rk4_order_conditions`       the tableau extracted from `mj_RungeKutta` satisfies the eight order-4 conditions
                                   (C05's theorem about the generated tableau, re-exported);
   * `rk4_energy_oscillator_partial`  for the harmonic oscillator one RK4 step with the generated tableau multiplies
@@ -60,22 +67,6 @@ example : ∃ rows : Fin 2 → SymRow ℝ 2, wf rows = true ∧ (∀ i, ((rows i
 
 /-! ### joint springs: force = −d potential / dq -/
 
-theorem polyPotential_real (k p0 p1 x : ℝ) :
-    Gen.c08_polyPotential k p0 p1 x = 1 / 2 * k * x ^ 2 + p0 / 3 * x ^ 3 + p1 / 4 * x ^ 4 := by
-  simp only [Gen.c08_polyPotential, real_ofInt, real_ofSci]
-  show (OfScientific.ofScientific 5 true 1 : ℝ) * k * (x * x) + p0 / ((3 : ℤ) : ℝ) * (x * x * x) +
-    p1 / ((4 : ℤ) : ℝ) * (x * x * x * x) = _
-  have h5 : (OfScientific.ofScientific 5 true 1 : ℝ) = 1 / 2 := by norm_num
-  rw [h5]
-  push_cast
-  ring
-
-theorem polyForce_real (k p0 p1 x : ℝ) : Gen.c08_polyForce k p0 p1 x = k + p0 * x + p1 * x ^ 2 := by
-  simp only [Gen.c08_polyForce, real_ofInt]
-  show k + p0 * (((1 : ℤ) : ℝ) * x) + p1 * (((1 : ℤ) : ℝ) * x * x) = _
-  push_cast
-  ring
-
 /-- `qfrc_spring` of a slide/hinge joint as coded in `mj_passive` -/
 noncomputable def springForce (k p0 p1 qspring q : ℝ) : ℝ :=
   -(q - qspring) * Gen.c08_polyForce k p0 p1 (q - qspring)
@@ -109,6 +100,87 @@ theorem spring_potential_at_ref (k p0 p1 qspring : ℝ) :
   unfold springPotential springForce
   rw [polyPotential_real, polyForce_real]
   simp
+
+/-! ### the joint loops of `mj_energyPos` / `mj_springdamper` with their skip test -/
+
+/-- **The skip test of the joint loops drops exactly the springs without potential**: `stiffness == 0 &&
+    mju_isZero(poly, mjNPOLY)` holds iff the potential coded in `mj_energyPos` vanishes for every displacement
+    (in particular a spring with zero linear stiffness and a non-zero polynomial coefficient is NOT skipped). -/
+theorem skip_test_iff_no_potential (k p0 p1 : ℝ) :
+    noSpring k p0 p1 = true ↔ ∀ x : ℝ, Gen.c08_polyPotential k p0 p1 x = 0 := by
+  rw [noSpring_real]
+  constructor
+  · rintro ⟨rfl, rfl, rfl⟩ x
+    rw [polyPotential_real]; ring
+  · intro h
+    have h1 := h 1
+    have h2 := h (-1)
+    have h3 := h 2
+    rw [polyPotential_real] at h1 h2 h3
+    refine ⟨?_, ?_, ?_⟩ <;> linarith
+
+/-- the engine's view of `n` slide/hinge joints at position `q` (joint `j` owns dof `j`), any gravity term,
+    springs enabled, no tendons -/
+noncomputable def potIn {n : ℕ} (gOn : Bool) (g0 g1 g2 : ℝ) (bodies : List (Body ℝ)) (P : Fin n → ScalarSpring)
+    (q : Fin n → ℝ) : PotIn ℝ :=
+  ⟨gOn, g0, g1, g2, bodies, true, (List.finRange n).map (scalarJoint P q), []⟩
+
+/-- `energy[0]` of the modelled `mj_energyPos` = (position-independent gravity term of fixed bodies) + the sum of the
+    UNGUARDED spring potentials: the skip test drops only zero terms -/
+theorem energyPos_scalarJoints {n : ℕ} (gOn : Bool) (g0 g1 g2 : ℝ) (bodies : List (Body ℝ))
+    (P : Fin n → ScalarSpring) (q : Fin n → ℝ) :
+    energyPos (potIn gOn g0 g1 g2 bodies P q) =
+      energyPos (potIn (n := 0) gOn g0 g1 g2 bodies (fun i => i.elim0) (fun i => i.elim0)) + ∑ j, potTerm P q j := by
+  unfold energyPos potIn
+  simp only [if_true, List.foldl_nil, foldl_jointPotential, List.finRange_zero, List.map_nil, Fin.sum_univ_def]
+
+/-- `qfrc_spring[j]` of the modelled `mj_springdamper` is the UNGUARDED spring force of joint `j` -/
+theorem springForce_scalarJoints {n : ℕ} (gOn : Bool) (g0 g1 g2 : ℝ) (bodies : List (Body ℝ))
+    (P : Fin n → ScalarSpring) (q : Fin n → ℝ) (j : Fin n) :
+    springForceFn (potIn gOn g0 g1 g2 bodies P q) j.val = forceTerm P q j := by
+  unfold springForceFn potIn
+  simp only [if_true, List.foldl_nil]
+  rw [foldl_jointForce P q _ (List.nodup_finRange n)]
+  by_cases hs : noSpring (P j).k (P j).p0 (P j).p1 = true
+  · simp [hs, forceTerm_of_noSpring P q j hs, zero_real]
+  · simp [hs]
+
+/-- **Spring forces are minus the gradient of the reported spring potential, through the joint loops and their
+    skip test**: for any number of slide/hinge joints with arbitrary (possibly zero, possibly purely polynomial)
+    spring coefficients and any position, `qfrc_spring[j]` computed by the model of `mj_springdamper` is minus the
+    partial derivative with respect to `q j` of `energy[0]` computed by the model of `mj_energyPos`. -/
+theorem joint_loop_force_is_neg_grad {n : ℕ} (gOn : Bool) (g0 g1 g2 : ℝ) (bodies : List (Body ℝ))
+    (P : Fin n → ScalarSpring) (q : Fin n → ℝ) (j : Fin n) :
+    HasDerivAt (fun t => energyPos (potIn gOn g0 g1 g2 bodies P (Function.update q j t)))
+      (-(springForceFn (potIn gOn g0 g1 g2 bodies P q) j.val)) (q j) := by
+  rw [springForce_scalarJoints]
+  set C := energyPos (potIn (n := 0) gOn g0 g1 g2 bodies (fun i => i.elim0) (fun i => i.elim0)) with hC
+  set K := C + ∑ i ∈ Finset.univ.erase j, potTerm P q i with hK
+  have key : (fun t => energyPos (potIn gOn g0 g1 g2 bodies P (Function.update q j t))) =
+      fun t => springPotential (P j).k (P j).p0 (P j).p1 (P j).qspring t + K := by
+    funext t
+    rw [energyPos_scalarJoints, ← Finset.add_sum_erase _ _ (Finset.mem_univ j)]
+    have h1 : potTerm P (Function.update q j t) j = springPotential (P j).k (P j).p0 (P j).p1 (P j).qspring t := by
+      simp [potTerm, springPotential]
+    have h2 : ∑ i ∈ Finset.univ.erase j, potTerm P (Function.update q j t) i =
+        ∑ i ∈ Finset.univ.erase j, potTerm P q i := by
+      refine Finset.sum_congr rfl fun i hi => ?_
+      have hne : i ≠ j := Finset.ne_of_mem_erase hi
+      simp [potTerm, Function.update_of_ne hne]
+    rw [h1, h2, hK]; ring
+  rw [key]
+  have h := (spring_force_is_neg_grad (P j).k (P j).p0 (P j).p1 (P j).qspring (q j)).add_const K
+  have hf : forceTerm P q j = springForce (P j).k (P j).p0 (P j).p1 (P j).qspring (q j) := rfl
+  rw [hf]
+  exact h
+
+/-- non-vacuity: two joints, the second with a purely cubic potential (`k = 0`, `p1 = 40`): it is not skipped and
+    its force at `q = 0.9` is `-(0.9) * 40 * 0.9²` -/
+example : noSpring (0 : ℝ) 0 40 = false ∧
+    forceTerm (n := 2) ![⟨3, 0, 0, 0⟩, ⟨0, 0, 40, 0⟩] ![0.1, 0.9] 1 = -(0.9) * (40 * 0.9 ^ 2) := by
+  constructor
+  · simp [noSpring, polyIsZero, zero_real]
+  · simp [forceTerm, polyForce_real]
 
 /-! ### RK4 tableau -/
 
